@@ -128,14 +128,14 @@ class Ctx:
 
     def sample(self, obj, limit=3):
         if len(self.samples) < limit:
-            self.samples.append(obj)
+            self.samples.append(_jsonable(obj))
 
     def violation(self, mech, msg, witness=None):
         self.count("violations", mech)
         if sum(1 for v in self.violations if v["mech"] == mech) >= 5:
             return
         self.violations.append(
-            {"mech": mech, "msg": str(msg)[:2000], "witness": witness, "stream": self.cur[0], "case": self.cur[1], "shard": self.shard}
+            {"mech": mech, "msg": str(msg)[:2000], "witness": _jsonable(witness), "stream": self.cur[0], "case": self.cur[1], "shard": self.shard}
         )
 
     def inconc(self, why):
@@ -165,6 +165,21 @@ class Ctx:
 
 # ----------------------------------------------------------------------------------------
 # H4: anchor reach through sys.monitoring LINE events (self-disabling per location)
+
+
+def _jsonable(o, depth=0):
+    """Witnesses and samples must survive json.dump whatever a check put into them (tuple keys of
+    product-group charges, numpy scalars, ...): a report that cannot be written would turn a
+    violation into an inconclusive run."""
+    if depth > 12:
+        return repr(o)
+    if isinstance(o, dict):
+        return {(k if isinstance(k, (str, int, float, bool)) or k is None else repr(k)): _jsonable(v, depth + 1) for k, v in o.items()}
+    if isinstance(o, (list, tuple, set, frozenset)):
+        return [_jsonable(v, depth + 1) for v in o]
+    if isinstance(o, (str, int, float, bool)) or o is None:
+        return o
+    return repr(o)
 
 
 class Reach:
